@@ -24,6 +24,7 @@ type Case struct {
 	Job  Job
 	Prog *XProg
 	Cfg  string
+	Full string // real source text when Text is a generator name (boundary programs)
 	Alt  *XProg // companion program: the same source and options compiled WITHOUT ReportEvent (C12), or the recompiled Dump (C13)
 }
 
@@ -153,10 +154,16 @@ func BuildQuery(dom *Domain, defs *Defs, extra []*T, bad []*T) (text string, val
 	return sb.String(), values
 }
 
-func oblName(rel, cfg, src string) string { return "bnd/" + rel + "/" + cfg + "/" + src }
+func oblName(rel, cfg, src string) string {
+	src = strings.NewReplacer("\n", "\\n", "\t", "\\t", "\r", "\\r").Replace(src)
+	return "bnd/" + rel + "/" + cfg + "/" + src
+}
 
 func (cx *Checker) newObl(rel string, c *Case) *core.Obl {
 	spec := ReplaySpec{Rel: rel, Src: c.Text, Mask: c.Job.Mask, Ev: c.Job.Ev, Costs: c.Job.Costs, Undef: c.Job.Undef}
+	if c.Full != "" {
+		spec.Src = c.Full
+	}
 	b, _ := json.Marshal(spec)
 	return &core.Obl{
 		Name: oblName(rel, c.Cfg, c.Text), Func: c.Text, Kind: "bounded:" + rel, Tier: core.Bounded,
@@ -206,9 +213,11 @@ func (cx *Checker) setQuery(o *core.Obl, dom *Domain, defs *Defs, extra []*T, ba
 
 // ---------------------------------------------------------------- concrete obligations from the driver
 
-// CompileObl: every source of the family compiles (no error, no panic).
-func (cx *Checker) CompileObl(c *Case) *core.Obl {
-	o := cx.newObl("compile", c)
+// WFObl: the source compiles (no error, no panic: every source of the family
+// is well-formed) and the compiled program satisfies the WF predicate of
+// DESIGN 4.1, evaluated by the driver.
+func (cx *Checker) WFObl(c *Case) *core.Obl {
+	o := cx.newObl("wf", c)
 	switch {
 	case c.Prog == nil:
 		o.Status = core.Unknown
@@ -221,22 +230,14 @@ func (cx *Checker) CompileObl(c *Case) *core.Obl {
 		o.Status = core.Refuted
 		o.Detail = "compile error: " + c.Prog.Err
 		o.Witness = fmt.Sprintf("src=%s cfg=%s: Compile returned %q", c.Text, c.Cfg, c.Prog.Err)
+	case len(c.Prog.WF) > 0:
+		o.Status = core.Refuted
+		o.Detail = strings.Join(c.Prog.WF, "; ")
+		o.Witness = fmt.Sprintf("src=%s cfg=%s: WF violated: %s", c.Text, c.Cfg, o.Detail)
 	default:
 		discharge(o, "driver")
 	}
 	return o
-}
-
-// WFObl: the WF predicate of DESIGN 4.1, evaluated by the driver.
-func (cx *Checker) WFObl(c *Case) *core.Obl {
-	o := cx.newObl("wf", c)
-	if len(c.Prog.WF) > 0 {
-		o.Status = core.Refuted
-		o.Detail = strings.Join(c.Prog.WF, "; ")
-		o.Witness = fmt.Sprintf("src=%s cfg=%s: WF violated: %s", c.Text, c.Cfg, o.Detail)
-		return o
-	}
-	return discharge(o, "driver")
 }
 
 // ---------------------------------------------------------------- safety / unwind (any unrolling)
@@ -992,6 +993,71 @@ func fmtTerms(ts []*T) string {
 		s = append(s, t.String())
 	}
 	return "[" + strings.Join(s, " ") + "]"
+}
+
+// ---------------------------------------------------------------- P7: C13 Dump round trip
+
+func bareScalar(p *XProg) bool {
+	var real []XNode
+	for _, n := range p.Nodes {
+		if n.Flag&ntMask != ntEvent {
+			real = append(real, n)
+		}
+	}
+	if len(real) != 1 || real[0].Flag&ntMask != ntConstant {
+		return false
+	}
+	switch real[0].Val.K {
+	case "bool", "int", "str", "nil":
+		return true
+	}
+	return false
+}
+
+// Redump: the driver dumps P, recompiles the text unoptimised under the same
+// names and dumps again:
+//   redump-compiles: recompilation succeeds unless P is a bare scalar constant
+//   redump-text    : the second Dump equals the first
+//   redump-eval    : Eval(P) = Eval(P_recompiled) for all bindings of all variables
+func (cx *Checker) Redump(c *Case) []*core.Obl {
+	oc, ot := cx.newObl("redump-compiles", c), cx.newObl("redump-text", c)
+	re := c.Prog.Re
+	if bareScalar(c.Prog) {
+		oc.Detail, ot.Detail = "bare scalar constant: "+oneLine(c.Prog.Dump), "bare scalar constant"
+		return []*core.Obl{discharge(oc, "driver"), discharge(ot, "driver")}
+	}
+	if re == nil || !re.OK() {
+		msg := "no recompiled program"
+		if re != nil {
+			msg = re.Err + re.Panic
+		}
+		oc.Status = core.Refuted
+		oc.Detail = "Dump text does not compile: " + msg
+		oc.Witness = fmt.Sprintf("src=%s cfg=%s: Dump text %q does not compile: %s", c.Text, c.Cfg, c.Prog.Dump, msg)
+		return []*core.Obl{oc}
+	}
+	discharge(oc, "driver")
+	if re.Dump != c.Prog.Dump {
+		ot.Status = core.Refuted
+		ot.Detail = "second Dump differs"
+		ot.Witness = fmt.Sprintf("src=%s cfg=%s: Dump %q, Dump of the recompiled program %q", c.Text, c.Cfg, c.Prog.Dump, re.Dump)
+	} else {
+		discharge(ot, "driver")
+	}
+	dom := &Domain{AllBound: true}
+	outs, trunc := cx.Joint(dom, []runSpec{{method: "Eval", prog: c.Prog}, {method: "Eval", prog: re}}, nil)
+	oe := cx.jointObl("redump-eval", c, dom, nil, outs, trunc, func(pc *T, runs []*RunResult) *T {
+		a, b := runs[0], runs[1]
+		if a == nil || b == nil || !a.Returned() {
+			return nil
+		}
+		if !b.Returned() {
+			return pc
+		}
+		return And(pc, Not(And(Eq(a.E, b.E), Implies(IsENil(a.E), Eq(a.V, b.V)))))
+	})
+	cx.setMethod(oe, "Eval")
+	return []*core.Obl{oc, ot, oe}
 }
 
 // ---------------------------------------------------------------- helpers
